@@ -16,10 +16,8 @@ SPEC = dict(
           "and legacy patterns x commit off / on (fake git); non-trivial+distinct = distinct (#files changed, "
           "max hunks per file, EOL set, engine, commit) tuples of dry runs that exit 0"),
     assumptions=["R5 (strict unified-diff parser/applier in this module) is independent of difflib",
-                 "files use one line-ending style each (the statement's domain)",
-                 "file text contains no ESC character: click.echo strips ANSI escape sequences from non-tty output, so "
-                 "such a line cannot be shown verbatim by any diff printed through click"],
-    required=["dry_ok_and_applied", "multi_file_diffs", "engine:v1", "engine:v2", "dry_failed_nothing_changed",
+                 "files use one line-ending style each (the statement's domain)"],
+    required=["dry_ok_and_applied", "files_with_terminal_control_sequences", "multi_file_diffs", "engine:v1", "engine:v2", "dry_failed_nothing_changed",
               "commit_on_runs", "unaffected_file_cases", "fault_cases", "message_template_cases",
               "fetch_brings_newer_tag_cases", "dirty_tree_cases"],
     anchors=[("cli", "_print_diff"), ("v2rewrite", "diff"), ("v1rewrite", "diff"), ("rewrite", "diff_lines"),
@@ -123,9 +121,57 @@ def cases(ctx):
                         yield {"kind": "unaffected", "vp": vp, "cur": cur, "flag": flag, "partial": partial,
                                "destroyed": destroyed, "commit": commit}
                     k += 1
+    for vp, cur, flag, new in (("MAJOR.MINOR.PATCH", "1.2.3", "--patch", "1.2.4"), ("vMAJOR.MINOR.PATCH[-TAG]", "v2.0.9-beta", "--minor", "v2.1.0-beta")):
+        for li in range(len(ANSI_LINES)):
+            for eol in ("\n", "\r\n"):
+                if ctx.mine(k):
+                    yield {"kind": "ansi", "vp": vp, "cur": cur, "flag": flag, "new": new, "line": li, "eol": eol}
+                k += 1
 
 
 EOL_OF = {"LF": "\n", "CRLF": "\r\n", "CR": "\r"}
+
+# lines with terminal control sequences (a coloured banner in a shell script): the printed diff has to carry them
+ANSI_LINES = [('echo "\x1b[1;32mMyTool v{v}\x1b[0m"', "MyTool v{version}"), ('\x1b[31mversion {v}\x1b[0m', "version {version}"),
+              ('printf "\x1b[2K\x1b[?25l{v}\x1b[0m\\n"', "l{version}")]
+
+
+def run_ansi(ctx, case):
+    vp, cur, flag, new = case["vp"], case["cur"], case["flag"], case["new"]
+    eol = case["eol"]
+    line, pat = ANSI_LINES[case["line"]]
+    text = eol.join(["#!/bin/sh", "# \x1b[36mbanner\x1b[0m", line.format(v=cur), "exit 0", ""])
+    cfg = (f'[bumpver]\ncurrent_version = "{cur}"\nversion_pattern = "{vp}"\n\n[bumpver.file_patterns]\n'
+           '"bumpver.toml" = [\'current_version = "{version}"\']\n' + f'"banner.sh" = [{projects.toml_str(pat)}]\n')
+    files = {"bumpver.toml": cfg.encode(), "banner.sh": text.encode()}
+    d = harness.new_project(files)
+    try:
+        args = ["update", "--no-fetch", flag]
+        before = harness.snapshot(d, meta=True)
+        dres = harness.invoke(args + ["--dry"], cwd=d)
+        ctx.count("files_with_terminal_control_sequences")
+        ctx.evaluated(("ansi", vp, case["line"], eol), sample={"argv": args + ["--dry"], "line": line})
+        if harness.snapshot(d, meta=True) != before:
+            ctx.violation("other:dry_run_changed_files", f"{args} --dry (banner.sh)", case=case)
+        if dres.exit_code != 0:
+            ctx.violation("other:dry_run_fails_on_control_sequences", f"{args} --dry: exit {dres.exit_code} {dres.errors()[-2:]} "
+                          f"{dres.crash or ''}", case=case)
+            return
+        try:
+            diff = parse_diff(dres.stdout.rstrip("\n"))
+            on_disk = {fn: b.decode("utf-8") for fn, b in files.items()}
+            predicted = apply_diff(on_disk, {"bumpver.toml": "\n", "banner.sh": eol}, diff)
+        except DiffError as ex:
+            ctx.violation("other:printed_diff_not_applicable", f"{args} --dry on a file with terminal control sequences: {ex}; "
+                          f"stdout={dres.stdout[:300]!r}", case=case)
+            return
+        res = harness.invoke(args, cwd=d)
+        after = harness.snapshot(d)
+        if res.exit_code != 0 or any(after.get(fn) != predicted[fn].encode("utf-8") for fn in files):
+            ctx.violation("other:real_run_differs_from_printed_diff", f"{args}: exit {res.exit_code}; banner.sh predicted "
+                          f"{predicted['banner.sh']!r}, real run wrote {after.get('banner.sh')!r}", case=case)
+    finally:
+        harness.rm_dir(d)
 
 
 def run_unaffected(ctx, case):
@@ -187,6 +233,8 @@ def run_unaffected(ctx, case):
 
 
 def run_case(ctx, case):
+    if case.get("kind") == "ansi":
+        return run_ansi(ctx, case)
     if case.get("kind") == "unaffected":
         return run_unaffected(ctx, case)
     R = random.Random(case["pseed"])
@@ -226,8 +274,6 @@ def run_case(ctx, case):
                          "release {version}", "notes: {", "} stray", "{0} positional", "{new_version!z}", ""])
         args += [R.choice(["--commit-message", "--tag-message"]), tmpl]
         ctx.count("message_template_cases")
-    if any("\x1b" in t for t in proj.files.values()):
-        raise harness.Skip("ansi-escape-in-file(click strips it from non-tty output)")
     files = proj.encoded()
     if case.get("fault"):
         # one configured pattern is made non-matching: whatever --dry says, the real run must agree with it
